@@ -75,6 +75,31 @@ def gen_scalar(rng, nonfinite=True):
     return gen_str(rng, 30)
 
 
+VOCAB = ["see_also", "signature", "other_headers", "signatures", "signed", "type", "version", "timestamp", "expiration", "delegations", "pubkeys",
+         "threshold", "metadata_spec_version", "packages", "packages.conda", "info", "sha256", "md5", "name", "subdir", "fingerprint", "keyid"]
+
+
+def vocab_value(rng, k):
+    hx = lambda n: "".join(rng.choice("0123456789abcdef") for _ in range(n))  # noqa: E731
+    if k in ("see_also", "fingerprint", "keyid"):
+        f = hx(40)
+        return rng.choice([f.upper(), " ".join(f.upper()[i:i + 4] for i in range(0, 40, 4)), f, "0x" + f, f[:20] + "  " + f[20:], f + "\n", f.upper()[:16]])
+    if k in ("signature", "other_headers", "sha256", "md5"):
+        v = hx(rng.choice([32, 64, 128]))
+        return rng.choice([v, v.upper(), v + " ", v[:10] + v[10:].upper()])
+    if k in ("timestamp", "expiration"):
+        return rng.choice(["2024-02-29T23:59:59Z", "2021-1-5T1:02:03Z", "2021-01-05t01:02:03z", "2021-01-05T01:02:03+00:00", 1700000000, "2021-01-05 01:02:03"])
+    if k in ("version", "threshold"):
+        return rng.choice([1, 1.0, "1", True, 2, 0, -1, 2**53])
+    if k == "type":
+        return rng.choice(["root", "key_mgr", "pkg_mgr", "app", "Root", " root", "ROOT", ""])
+    if k in ("signatures", "delegations", "packages", "packages.conda", "info", "signed"):
+        return rng.choice([{}, [], {hx(64): {"signature": hx(128)}}, {"a-1-0.tar.bz2": {"name": "a"}}, None, "x"])
+    if k == "pubkeys":
+        return rng.choice([[hx(64)], [hx(64).upper()], [], [hx(64), hx(64)]])
+    return rng.choice([gen_str(rng, 6), "noarch", "0.6.0", "v1"])
+
+
 def gen_json(rng, depth=3, budget=None, nonfinite=True):
     """Random JSON value: depth <= `depth`, at most ~budget[0] nodes."""
     if budget is None:
@@ -88,6 +113,11 @@ def gen_json(rng, depth=3, budget=None, nonfinite=True):
         for _ in range(n):
             if budget[0] <= 0:
                 break
+            if rng.random() < 0.12:
+                # member names from the library's own vocabulary, with values in the spellings other tools produce
+                k = rng.choice(VOCAB)
+                d[k] = vocab_value(rng, k) if rng.random() < 0.7 else gen_json(rng, depth - 1, budget, nonfinite)
+                continue
             d[gen_str(rng, 8)] = gen_json(rng, depth - 1, budget, nonfinite)
         return d
     n = rng.choice([0, 1, 2, 3, 4])
@@ -100,8 +130,9 @@ def gen_json(rng, depth=3, budget=None, nonfinite=True):
 
 
 def gen_deep(rng, depth=None):
-    """A narrow value nested 20-120 levels deep (well below the interpreter's recursion limit)."""
-    depth = depth or rng.choice([20, 40, 80, 120])
+    """A narrow value nested 20-250 levels deep (well below the interpreter's recursion limit of 1000; the library's own
+    serializer needs about one frame per level)."""
+    depth = depth or rng.choice([20, 40, 80, 120, 127, 128, 129, 160, 250])
     v = gen_scalar(rng)
     for i in range(depth):
         v = {gen_str(rng, 3) or "k": v} if rng.random() < 0.5 else [v]
@@ -184,7 +215,7 @@ _ARABIC = {c: chr(0x0660 + i) for i, c in enumerate("0123456789")}
 
 SPELLINGS = ["nl_for_last", "upper", "lead_space", "trail_space", "trail_nl", "0x", "fullwidth1", "fullwidth_all",
              "mid_space", "arabic1", "first_upper", "trail_tab", "lead_nl", "trail_nul", "bytes_like",
-             "zero_width", "plus_00"]
+             "zero_width", "plus_00", "underscore", "lead_plus", "nul_mid", "roman_upper_mix", "turkish_i", "nfkc_digit", "superscript"]
 
 
 def respell(k, how):
@@ -213,6 +244,26 @@ def respell(k, how):
         return k[:10] + "​" + k[10:]
     if how == "plus_00":
         return k + "00"
+    if how == "underscore":
+        return k[:10] + "_" + k[10:]           # int(x, 16) reads through single underscores
+    if how == "lead_plus":
+        return "+" + k
+    if how == "nul_mid":
+        return k[:32] + "\x00" + k[32:]
+    if how == "roman_upper_mix":
+        return "".join(c.upper() if i % 2 else c for i, c in enumerate(k))
+    if how == "turkish_i":
+        return k[:-1] + "\u0131"               # right length; dotless i upper-cases to I
+    if how == "nfkc_digit":
+        for i, c in enumerate(k):
+            if c in "0123456789":
+                return k[:i] + chr(0x1D7CE + int(c)) + k[i + 1:]        # mathematical bold digit: NFKC-equal, str.isdigit() true
+        return k
+    if how == "superscript":
+        for i, c in enumerate(k):
+            if c in "123":
+                return k[:i] + {"1": "\u00b9", "2": "\u00b2", "3": "\u00b3"}[c] + k[i + 1:]   # isdigit() true, int() refuses
+        return k
     if how == "fullwidth_all":
         return "".join(_FULLWIDTH.get(c, c) for c in k)
     if how == "fullwidth1":
@@ -269,8 +320,16 @@ def junk_entry(rng):
         return {"signature": hx(128).upper()}
     if r < 0.5:
         return {"signature": hx(128), "other_headers": hx(rng.choice([0, 1, 2, 10, 70]))}
-    if r < 0.58:
+    if r < 0.55:
         return {"signature": hx(128), "other_headers": hx(20), "see_also": hx(rng.choice([38, 40, 42]))}
+    if r < 0.58:
+        # containers and byte strings of the lengths the format expects of strings
+        n = rng.choice([40, 40, 128, 64])
+        odd = rng.choice([list(range(n)), {str(i): i for i in range(n)}, ["a"] * n, tuple(range(n))[:n] and [None] * n])
+        f = rng.choice(["see_also", "see_also", "signature", "other_headers"])
+        e = {"signature": hx(128), "other_headers": hx(20), "see_also": hx(40)}
+        e[f] = odd if not (f == "signature" and n != 128) else [0] * 128
+        return e
     if r < 0.65:
         return {"signature": hx(128), "extra": 1}
     if r < 0.72:
